@@ -387,6 +387,64 @@ theorem LogSinh.state_jacobian_set (s : LogSinh.State ℝ) (x xm : ℝ) (h : s.x
   cases s with
   | mk a b xm' => cases h; rfl
 
+/-! ### outside its guard `_jacobian` is NaN, never a wrong number (all guarded classes), and the guarded `forward`
+of LogSinh / Reciprocal is the raw formula exactly on the domain -/
+
+theorem Logit.jacobian_none (p : Logit.Params ℝ) (x : ℝ) (hj : ¬ Logit.jdom p x) : Logit.jacobian p x = none := by
+  unfold Logit.jdom at hj
+  simp only [Logit.jacobian, C01.guard]
+  rw [if_neg]
+  simpa only [Bool.and_eq_true, decide_eq_true_iff] using hj
+
+theorem Log.jacobian_none (p : Log.Params ℝ) (x : ℝ) (hj : ¬ Log.jdom p x) : Log.jacobian p x = none := by
+  have hj' : ¬ p.mininu < x + p.nu := hj
+  simp only [Log.jacobian, C01.guard, decide_eq_false hj', Bool.false_eq_true, if_false]
+
+theorem Reciprocal.jacobian_none (p : Reciprocal.Params ℝ) (x : ℝ) (hj : ¬ Reciprocal.jdom p x) :
+    Reciprocal.jacobian p x = none := by
+  have hj' : ¬ -p.nu < x := hj
+  simp only [Reciprocal.jacobian, C01.guard, decide_eq_false hj', Bool.false_eq_true, if_false]
+
+theorem LogSinh.jacobian_none (p : LogSinh.Params ℝ) (x : ℝ) (hj : ¬ LogSinh.dom p x) :
+    LogSinh.jacobian p x = none := by
+  have hj' : LogSinh.inDom p x = false := by simpa [LogSinh.dom] using hj
+  simp only [LogSinh.jacobian, C01.guard, hj', Bool.false_eq_true, if_false]
+
+theorem BoxCox2sym.jacobian_none (p : BoxCox2sym.Params ℝ) (x : ℝ) (hj : ¬ p.mininu < |x| + p.nu) :
+    BoxCox2sym.jacobian p x = none := by
+  have hj' : ¬ (BoxCox2sym.toBC p).mininu < absv x + (BoxCox2sym.toBC p).nu := by
+    simpa only [BoxCox2sym.toBC, absv_eq] using hj
+  simp only [BoxCox2sym.jacobian, BoxCox2.jacobian, C01.guard, decide_eq_false hj', Bool.false_eq_true, if_false]
+
+theorem BoxCox1lam.jacobian_none (p : BoxCox1lam.Params ℝ) (x : ℝ) (hj : ¬ p.mininu < x + p.nu) :
+    BoxCox1lam.jacobian p x = none := BoxCox2.jacobian_none (BoxCox1lam.toBC p) x hj
+
+theorem BoxCox1nu.jacobian_none (p : BoxCox1nu.Params ℝ) (x : ℝ) (hj : ¬ p.mininu < x + p.nu) :
+    BoxCox1nu.jacobian p x = none := BoxCox2.jacobian_none (BoxCox1nu.toBC p) x hj
+
+/-- the function whose derivative `LogSinh.hasDerivAt` takes is what `forward` returns on the domain (NaN outside) -/
+theorem LogSinh.forward_eq (p : LogSinh.Params ℝ) (x : ℝ) :
+    (LogSinh.dom p x → LogSinh.forward p x = some (LogSinh.fwd p x)) ∧
+    (¬ LogSinh.dom p x → LogSinh.forward p x = none) := by
+  constructor
+  · intro h
+    have h' : LogSinh.inDom p x = true := h
+    simp only [LogSinh.forward, C01.guard, h', if_true]
+  · intro h
+    have h' : LogSinh.inDom p x = false := by simpa [LogSinh.dom] using h
+    simp only [LogSinh.forward, C01.guard, h', Bool.false_eq_true, if_false]
+
+theorem Reciprocal.forward_eq (p : Reciprocal.Params ℝ) (x : ℝ) :
+    (Reciprocal.dom p x → Reciprocal.forward p x = some (Reciprocal.fwd p x)) ∧
+    (¬ Reciprocal.dom p x → Reciprocal.forward p x = none) := by
+  constructor
+  · intro h
+    have h' : -p.nu < x := h
+    simp only [Reciprocal.forward, C01.guard, decide_eq_true h', if_true]
+  · intro h
+    have h' : ¬ -p.nu < x := h
+    simp only [Reciprocal.forward, C01.guard, decide_eq_false h', Bool.false_eq_true, if_false]
+
 /-! ### BoxCox2sym — odd extension `sign(x) (BC(|x|) - BC(0))`, Jacobian `BC'(|x|)`: the derivative on each
 half-line, and — because both one-sided derivatives at 0 equal `BC'(0)` — also at `x = 0` when `nu > 0` -/
 
@@ -727,6 +785,91 @@ theorem Softmax.jacobianM_eq (rows : List (List ℝ)) (hd : ∀ r ∈ rows, Soft
     rw [Bool.not_eq_true, decide_eq_false_iff_not, not_lt]; exact (hd r hr).2
   simp only [Softmax.jacobianM, h1, h2, Bool.false_eq_true, if_false]
 
+/-- the determinant the driver executes (`pdDet`: Laplace expansion of the nested-list matrix `pdMatrix`) is
+`Matrix.det` of the same entries, hence equals `jacRow`: the executable cross-check is the theorem's object -/
+theorem Softmax.pdDet_eq_det (xs : List ℝ) :
+    C02.Softmax.pdDet xs = Matrix.det (Matrix.of fun i j : Fin xs.length => C02.Softmax.pdEntry xs i j) := by
+  unfold C02.Softmax.pdDet
+  exact detL_toL (Matrix.of fun i j : Fin xs.length => C02.Softmax.pdEntry xs i j)
+
+theorem Softmax.pdDet_eq_jacRow (xs : List ℝ) (hd : Softmax.dom xs) : C02.Softmax.pdDet xs = Softmax.jacRow xs := by
+  obtain ⟨j, hj, _, hdet⟩ := Softmax.jacobian_spec xs hd
+  have h := Softmax.jacobian_eq_det xs hd
+  rw [Softmax.pdDet_eq_det]
+  have h1 : Softmax.anyNeg xs = false := by
+    unfold Softmax.anyNeg
+    rw [List.any_eq_false]
+    intro x hx
+    have := hd.1 x hx
+    simp [not_lt.mpr this.le]
+  have h2 : Softmax.sumTooBig xs = false := by
+    unfold Softmax.sumTooBig
+    rw [decide_eq_false_iff_not, not_lt]; exact hd.2
+  simp only [Softmax.jacobian, h1, h2, Bool.false_eq_true, if_false] at h
+  exact (Except.ok.inj h).symm
+
+/-- a negative entry anywhere, or a row sum above `1 - EPS`, is rejected by `jacobian` (ValueError, never a number) -/
+theorem Softmax.jacobian_rejects (xs : List ℝ) (h : (∃ x ∈ xs, x < 0) ∨ 1 - eps < Softmax.sumL xs) :
+    ∃ e, Softmax.jacobian xs = .error e := by
+  unfold Softmax.jacobian
+  by_cases h1 : Softmax.anyNeg xs = true
+  · exact ⟨_, by rw [if_pos h1]⟩
+  · rw [if_neg h1]
+    rcases h with ⟨x, hx, hneg⟩ | h
+    · exfalso; apply h1
+      unfold Softmax.anyNeg
+      rw [List.any_eq_true]
+      exact ⟨x, hx, by simpa using hneg⟩
+    · have h2 : Softmax.sumTooBig xs = true := by unfold Softmax.sumTooBig; simpa using h
+      exact ⟨_, by rw [if_pos h2]⟩
+
+/-! ### the public method on a whole 1-D array, from ANY object state (i.e. after any history of calls, parameter
+re-assignments and earlier results): one re-synchronisation, then the Jacobian formula at the CURRENT parameters on
+every element — nothing is remembered from earlier calls -/
+
+theorem BoxCox1lam.state_jacobianArr_eq (s : BoxCox1lam.State ℝ) (nu : ℝ) (xs : List ℝ) (hnu : s.nu = some nu) :
+    BoxCox1lam.State.jacobianArr s xs =
+      .ok (⟨s.lam, some nu, ⟨nu, s.lam, s.bc.mininu⟩⟩, xs.map (BoxCox2.jacobian ⟨nu, s.lam, s.bc.mininu⟩)) := by
+  cases s with
+  | mk lam nu' bc => cases hnu; rfl
+
+theorem BoxCox1nu.state_jacobianArr_eq (s : BoxCox1nu.State ℝ) (lam : ℝ) (xs : List ℝ) (hlam : s.lam = some lam) :
+    BoxCox1nu.State.jacobianArr s xs =
+      .ok (⟨s.nu, some lam, ⟨s.nu, lam, s.bc.mininu⟩⟩, xs.map (BoxCox2.jacobian ⟨s.nu, lam, s.bc.mininu⟩)) := by
+  cases s with
+  | mk nu lam' bc => cases hlam; rfl
+
+theorem BoxCox2sym.state_jacobianArr_eq (s : BoxCox2sym.State ℝ) (xs : List ℝ) :
+    BoxCox2sym.State.jacobianArr s xs =
+      (⟨s.nu, s.lam, ⟨s.nu, s.lam, s.bc.mininu⟩⟩, xs.map (BoxCox2sym.jacobian ⟨s.nu, s.lam, s.bc.mininu⟩)) := rfl
+
+/-- two calls in a row (a forward call, then a Jacobian call, as the likelihood code does) on the same object: the
+second result does not depend on what the first call left in the inner BoxCox2 -/
+theorem BoxCox1lam.jacobianArr_after_forwardArr (s : BoxCox1lam.State ℝ) (nu : ℝ) (xs zs : List ℝ) (hnu : s.nu = some nu) :
+    ∃ s1 r1, BoxCox1lam.State.forwardArr s zs = .ok (s1, r1) ∧
+      BoxCox1lam.State.jacobianArr s1 xs = BoxCox1lam.State.jacobianArr s xs := by
+  cases s with
+  | mk lam nu' bc => cases hnu; exact ⟨_, _, rfl, rfl⟩
+
+theorem LogSinh.state_jacobianArr_eq (s : LogSinh.State ℝ) (xm : ℝ) (xs : List ℝ) (h : s.xmax = some xm) :
+    LogSinh.State.jacobianArr s xs = .ok (xs.map (LogSinh.jacobian ⟨s.loga, s.logb, xm⟩)) := by
+  cases s with
+  | mk a b xm' => cases h; rfl
+
+theorem Manly.state_jacobianArr_eq (s : Manly.State ℝ) (xm : ℝ) (xs : List ℝ) (h : s.xmax = some xm) :
+    Manly.State.jacobianArr s xs = .ok (xs.map (Manly.jacobian ⟨s.lam, xm⟩)) := by
+  cases s with
+  | mk l xm' => cases h; rfl
+
+/-- Softmax on an array of more than two dimensions is rejected before anything else; up to two dimensions it is the
+row-wise Jacobian -/
+theorem Softmax.jacobianND_spec (ndim : ℕ) (rows : List (List ℝ)) :
+    (2 < ndim → Softmax.jacobianND ndim rows = .error .ndimGt2) ∧
+    (ndim ≤ 2 → Softmax.jacobianND ndim rows = Softmax.jacobianM rows) := by
+  constructor
+  · intro h; simp only [Softmax.jacobianND, if_pos h]
+  · intro h; simp only [Softmax.jacobianND, if_neg (not_lt.mpr h)]
+
 /-! ### non-vacuity: every hypothesis above is met by concrete, non-trivial inputs -/
 
 example : Logit.jdom (⟨0, 0⟩ : Logit.Params ℝ) (1 / 2) := by
@@ -767,5 +910,12 @@ example : (∀ k : Fin 2, (0 : ℝ) < ![0.2, 0.3] k) ∧ ∑ k : Fin 2, (![0.2, 
   refine ⟨fun k => ?_, ?_⟩
   · fin_cases k <;> norm_num
   · norm_num [Fin.sum_univ_two]
+
+example : ¬ Logit.jdom (⟨0, 0⟩ : Logit.Params ℝ) (1e-11) := by
+  simp only [Logit.jdom, Logit.upper, transc_exp, Real.exp_zero, eps]; norm_num
+example : ¬ LogSinh.dom (⟨0, 0, 1⟩ : LogSinh.Params ℝ) (-1) := by
+  simp only [LogSinh.dom, LogSinh.inDom, LogSinh.a, LogSinh.b, transc_exp, Real.exp_zero, eps, decide_eq_true_iff]
+  norm_num
+example : (∃ x ∈ ([0.2, -0.1] : List ℝ), x < 0) := ⟨-0.1, by simp, by norm_num⟩
 
 end HydroVerif.C02
